@@ -28,7 +28,8 @@ RULE = ('PARSE: images built by an independent HPM.1 encoder (harness twin of Sp
         'reference device that parses the request bytes, under plans answering any subset of blocks with 80h '
         '(0..n further in-progress status answers, also more than the time-out allows, then the final completion code of '
         'the long duration command in Get upgrade status: 00h or a failure code), one block with another code, or '
-        'silence; virtual clock; the recorded requests are compared with the model and judged by the property '
+        'silence (any subset of blocks unanswered 1..retry+1 times in a row, crossed with 80h, another code and the 255 -> 0 '
+        'wrap: the unanswered block must be sent again with the same number, or the call must raise); virtual clock; the recorded requests are compared with the model and judged by the property '
         '(data exact, numbered i mod 256, 0 < len <= 22, status poll right after every 80h, the next block only after '
         'the status reported the final 00h, HpmError and nothing sent after another code - be it the answer to the block '
         'or the final code of its long duration command -, no further block and no normal return while 80h is still '
@@ -56,11 +57,12 @@ ASSUMPTIONS = [
     'device limit for one firmware block is 22 bytes (DESIGN §C18); the device answers status requests with '
     'completion code 00h (the outcome of the long duration command is in the response DATA: last completion code); '
     'interface time-outs / IOError during status polling are not generated',
-    'a block that is not answered at all (silence, interface time-out) is outside the quantifier ("blocks answered with '
-    'the in-progress code or another error"): only what was sent is judged then.  upload_binary goes on with the NEXT '
-    'block after a time-out (audit finding 3: the lost block is not re-sent) - every byte the library sends is still sent '
-    'once, in order and consecutively numbered, which is all the property says about requests; whether the device '
-    'received them is a transport matter outside C18',
+    'a block request that is not answered at all (the interface raises IpmiTimeoutError) is a fault of the upload like '
+    'any other: the agent cannot tell a lost request from a lost response, so the oracle takes the block as NOT delivered '
+    '(HPM.1: the agent repeats the block with the same number; a device that already has it ignores the duplicate) - the '
+    'next request must carry the same number and bytes, or the call must raise (which exception is not judged); an '
+    'unanswered request followed by its exact repetition counts once for the rest of the oracle.  How many repetitions '
+    'the retry argument allows is not judged (1..retry+1 consecutive silences are generated)',
     'when the time-out expires while the status still reports 80h the upload must not go on and must not return normally; '
     'which library error it raises is not judged (the repaired code raises HpmError)',
     'histories: Hpm.install_component_from_file (parse + whole upgrade procedure) is not driven; it opens the file with the '
@@ -79,6 +81,7 @@ TRUSTED = ['harness/translate/hpm.py', 'harness/sim/dev18.py', 'harness/sim/pris
 DEVICE_BLOCK_LIMIT = 22
 SIGNATURE = b'PICMGFWU'
 _k = None
+_RESEND = 0         # upload variant the real code has (probed): 1 = an unanswered block is sent again, same number
 _CHECKED = 0        # upload variant the real code has (probed): 1 = the outcome of the status polls is checked
 
 
@@ -469,6 +472,18 @@ def probe_upload_variant(ctx):
     checked = 1 if tag == 'HpmError' else 0
     ctx.extra.setdefault('variant', {})['status_poll_outcome_ignored(as shipped)'] = not checked
     return checked
+
+
+def probe_resend_variant(ctx):
+    """is a block whose request got no answer sent again?  (two blocks, the first request unanswered once)"""
+    _, _, dev = run_upload(bytes(range(30)), [('t',)], 20, 1, 0, 3)
+    b = [(ev[1], ev[2]) for ev in dev.trace if ev[0] == 'B']
+    resend = 1 if len(b) >= 2 and b[0] == b[1] else 0
+    ctx.extra.setdefault('variant', {})['unanswered_block_skipped(as shipped)'] = not resend
+    if _k is not None and _k.get('upload_resend') is not None and int(_k['upload_resend']) != resend:
+        ctx.disagree('upload-resend-variant', {}, 'translator reads resend=%s' % _k.get('upload_resend'),
+                     'probe on the real code: resend=%d' % resend)
+    return resend
 
 
 def _parse_line(variant, data):
@@ -1034,6 +1049,13 @@ def first_stop(plan, dev, timeout):
     return None
 
 
+class _DevView(object):
+    """what a device recorded, with the unanswered requests that were repeated taken out"""
+
+    def __init__(self, trace, answers):
+        self.trace, self.answers = trace, answers
+
+
 def judge_upload(ctx, case, binary, plan, timeout, tag, dev):
     """Property oracle on the requests the reference device recorded."""
     trace = dev.trace
@@ -1043,10 +1065,46 @@ def judge_upload(ctx, case, binary, plan, timeout, tag, dev):
         ctx.violate('C18:upload:malformed-request', 'a request the device cannot interpret was sent', case,
                     expected='Upload firmware block / Get upgrade status', observed=repr(bad)[:200])
         return False
+    # Requests that got NO answer (the interface raises IpmiTimeoutError).  The agent cannot tell a lost request from a
+    # lost response, so the block has to be taken as NOT delivered: HPM.1 has the agent repeat it with the SAME number
+    # and the SAME bytes (a device that did take it sees the number it already has and ignores the duplicate), or the
+    # upload ends with an error.  Going on with the next block leaves a hole in the firmware the device holds.
+    bpos = [p for p, ev in enumerate(trace) if ev[0] == 'B']
+    dropped = set()
+    for i, p in enumerate(bpos):
+        if dev.answers[i] is not None:
+            continue
+        if i + 1 < len(bpos):
+            nxt = trace[bpos[i + 1]]
+            if (nxt[1], nxt[2]) != (trace[p][1], trace[p][2]):
+                ctx.violate('C18:upload:block-skipped-after-timeout',
+                            'request %d (block number %d, %d bytes) got no answer (IpmiTimeoutError): it was not sent '
+                            'again - the next request carries number %d and %s; upload ends with %s, the %d bytes are '
+                            'missing on the device' % (i, trace[p][1], len(trace[p][2]), nxt[1],
+                                                      'the FOLLOWING bytes' if nxt[2] != trace[p][2] else 'the same bytes',
+                                                      tag, len(trace[p][2])), case,
+                            expected='B%d:%s again, or an error' % (trace[p][1], _hx(trace[p][2])[:48]),
+                            observed='B%d:%s, %s' % (nxt[1], _hx(nxt[2])[:48], tag))
+                return False
+            dropped.add(i)
+        elif tag == 'ok':
+            ctx.violate('C18:upload:block-skipped-after-timeout',
+                        'the last request (block number %d, %d bytes) got no answer (IpmiTimeoutError): it was not sent '
+                        'again and upload_binary returned normally' % (trace[p][1], len(trace[p][2])), case,
+                        expected='B%d again, or an error' % trace[p][1], observed='ok')
+            return False
+    if dropped:
+        # judge the rest on what the device ACCEPTS: an unanswered request followed by its exact repetition counts once
+        drop_pos = set(bpos[i] for i in dropped)
+        dev = _DevView([ev for p, ev in enumerate(trace) if p not in drop_pos],
+                       [a for i, a in enumerate(dev.answers) if i not in dropped])
+        plan = [x for i, x in enumerate(plan) if i not in dropped]
+        trace = dev.trace
+        blocks = [(ev[1], ev[2]) for ev in trace if ev[0] == 'B']
     # what the plan means for this binary
     nblocks_needed = (len(binary) + DEVICE_BLOCK_LIMIT - 1) // DEVICE_BLOCK_LIMIT
     sent = b''.join(b for _, b in blocks)
-    silent = any(a is None for a in dev.answers)   # outside the property's quantifier: only what was sent is judged
+    silent = any(a is None for a in dev.answers)   # the unanswered request the upload ended with an error at
     ok = True
     for i, (num, blk) in enumerate(blocks):
         if num != i % 256:
@@ -1206,7 +1264,7 @@ def check_upload(ctx, drv, bs, binary, plan, timing, retry, label, judge=True, s
         ctx.violations.extend(found)
         good = not found
     if drv is not None:
-        m = drv.ask('upload %d %d %d %d %d %d %s %s' % (_CHECKED, bs, timeout, interval, lat, retry, _hx(binary),
+        m = drv.ask('%s %d %d %d %d %d %d %s %s' % ('uploadr' if _RESEND else 'upload', _CHECKED, bs, timeout, interval, lat, retry, _hx(binary),
                                                          case['plan']))
         code = ('%s %d %s' % (tag, now, ' '.join(toks))).strip()
         if m.strip() != code:
@@ -1302,6 +1360,7 @@ def upload_streams(ctx, drv, rng, scale, frng=None):
                  'long-duration-failure-last-block')
     check_upload(ctx, drv, bs, binary[:100], [('f', 30, 0x81)], (5, 2, 1), 3, 'failure-after-the-time-out')
     check_upload(ctx, drv, bs, binary[:100], [('p', 2)], (0, 1, 0), 3, 'timeout-zero', judge=False)
+    silent_streams(ctx, drv, bs, binary, ctx.rng('upload-silent'), scale)
     # the same Ipmi object used for several uploads in a row (a finished one, an empty one, an aborted one before):
     # every upload numbers its blocks from zero and sends exactly its own binary
     for prior in ([(_hx(_rb(rng, 100)), '-')], [('-', '-'), (_hx(_rb(rng, 45)), '-')],
@@ -1320,6 +1379,55 @@ def upload_streams(ctx, drv, rng, scale, frng=None):
         kind = rng.choice(kinds)
         check_upload(ctx, drv, bs, binary, gen_plan(rng, nblocks, kind), rng.choice(TIMINGS),
                      rng.choice([3, 3, 1, 2, 5, 0]), 'random/' + kind, form=frng.choice(dev18.FORMS))
+        if ctx.time_left() < 20:
+            break
+
+
+def plan_with_silences(rng, nblocks, retry, p, inprog=0.0, err=False):
+    """request-indexed plan built PER BLOCK: with probability p a block's request goes unanswered 1..retry+1 times in
+    a row before the device answers it (00h, 80h with 0..3 further in-progress polls, or - once - another code)"""
+    plan, hit = [], False
+    for j in range(nblocks):
+        if rng.random() < p or (j == nblocks - 1 and not hit):
+            hit = True
+            plan += [('t',)] * rng.choice([1, 1, 1, 2, max(1, retry - 1), max(1, retry), retry + 1])
+        if err and j == nblocks // 2:
+            plan.append(('e', rng.choice([0xC0, 0xC1, 0xD5, 0x81, 0xFF])))
+        elif rng.random() < inprog:
+            plan.append(('p', rng.choice([0, 1, 2, 3])))
+        else:
+            plan.append(('o',))
+    return plan
+
+
+def silent_streams(ctx, drv, bs, binary, rng, scale):
+    """outcome "no answer" (the interface raises IpmiTimeoutError) in the per-block alphabet: any subset of blocks,
+    1..retry+1 consecutive silences, crossed with 80h blocks, another code and the 255 -> 0 wrap"""
+    b100 = binary[:100]
+    for retry in (3, 1, 2, 5):
+        for j in (0, 1, 4):
+            for k in sorted(set([1, retry - 1, retry, retry + 1]) - set([0])):
+                check_upload(ctx, drv, bs, b100, [('o',)] * j + [('t',)] * k, (20, 1, 0), retry,
+                             'silent/block%d-x%d/retry%d' % (j, k, retry), sample=(retry == 3 and j == 1 and k == 1))
+    check_upload(ctx, drv, bs, b100, [('o',), ('t',), ('p', 2), ('t',), ('t',), ('o',)], (20, 1, 0), 3,
+                 'silent/then-in-progress')
+    check_upload(ctx, drv, bs, b100, [('p', 1), ('t',), ('f', 1, 0xC3)], (20, 1, 0), 3, 'silent/then-long-failure')
+    check_upload(ctx, drv, bs, b100, [('t',), ('e', 0xC1)], (20, 1, 0), 3, 'silent/then-rejected')
+    check_upload(ctx, drv, bs, b100, [('t',), ('p', 1), ('t',), ('o',), ('t',), ('p', 0), ('t',), ('o',), ('t',), ('o',)],
+                 (20, 1, 0), 3, 'silent/every-block-once')
+    check_upload(ctx, drv, bs, b100[:22], [('t',)], (20, 1, 0), 3, 'silent/only-block')
+    check_upload(ctx, drv, bs, binary, [('o',)] * 255 + [('t',)], (20, 1, 0), 3, 'silent/number-255')
+    check_upload(ctx, drv, bs, binary, [('o',)] * 256 + [('t',), ('t',)], (20, 1, 0), 3, 'silent/wrap-to-0', sample=True)
+    check_upload(ctx, drv, bs, binary, [('o',)] * 10 + [('t',)] + [('o',)] * 189 + [('t',)], (20, 1, 0), 3,
+                 'silent/two-far-apart')
+    for _ in range(int(5 * scale)):
+        size = rng.randrange(1, 300) if rng.random() < 0.7 else rng.randrange(300, 6001)
+        nblocks = (size + bs - 1) // bs if bs > 0 else 0
+        retry = rng.choice([3, 3, 1, 2, 5])
+        mode = rng.choice(['plain', 'inprog', 'inprog', 'err'])
+        plan = plan_with_silences(rng, nblocks, retry, rng.choice([0.02, 0.2, 1.0]) if nblocks < 40 else 0.02,
+                                  inprog=0.3 if mode != 'plain' else 0.0, err=(mode == 'err'))
+        check_upload(ctx, drv, bs, _rb(rng, size), plan, rng.choice(TIMINGS), retry, 'silent/random-' + mode)
         if ctx.time_left() < 20:
             break
 
@@ -1596,6 +1704,8 @@ def _streams(ctx, tag, scale):
         variant = probe_variant(ctx, work)
         global _CHECKED
         _CHECKED = probe_upload_variant(ctx)
+        global _RESEND
+        _RESEND = probe_resend_variant(ctx)
         history_stream(ctx, drv, variant, ctx.rng(tag + '/history'), int(10 * scale))
         first = len(ctx.violations)
         global _KEEP
